@@ -23,6 +23,7 @@ var collidingWindows [][2]string // 5-byte lower-case strings with equal FastHas
 var collidingHosts [][2]string   // host names with equal FastHash
 var collidingDNSTexts [][2]string // host-level rule texts "||a.ar^$..." (sequential table) with equal FastHash
 var collidingDNSHosts [][2]string // ... and their host names
+var collidingSelectors [][2]string // element-hiding selectors with equal FastHash
 var collidingSeqTexts [][2]string // rule texts "/xyz^" (sequential table: shortcut shorter than 5) with equal FastHash
 
 func findCollisions() {
@@ -87,6 +88,26 @@ dsearch:
 					}
 				}
 				seenD[h] = [2]string{txt, host}
+			}
+		}
+	}
+	// element-hiding selectors ".ad-xyz" with equal FastHash (fixed enumeration order)
+	seenS := map[uint32]string{}
+ssearch:
+	for a := 0; a < len(al); a++ {
+		for b := 0; b < len(al); b++ {
+			for c := 0; c < len(al); c++ {
+				for d := 0; d < len(al); d++ {
+					sel := ".ad-" + string(al[a]) + string(al[b]) + string(al[c]) + string(al[d])
+					h := filterutil.FastHash(sel)
+					if o, ok := seenS[h]; ok && o != sel {
+						collidingSelectors = append(collidingSelectors, [2]string{o, sel})
+						if len(collidingSelectors) >= 8 {
+							break ssearch
+						}
+					}
+					seenS[h] = sel
+				}
 			}
 		}
 	}
@@ -201,6 +222,32 @@ func engineRule(g *Gen) string {
 			// $domain values that are public suffixes themselves (private section, wildcard entries) or one label
 			return Pick(g, []string{"ad", "*", "/x", "^"}) + "$domain=" + joinVals(g, []string{"github.io", "kawasaki.jp", "co.uk", "blogspot.com", "ck", "org", "localhost", "city.kawasaki.jp"}, 1, 2, 0, "|")
 		}
+		if g.Chance(1, 5) {
+			// values related as parent and subdomain, in either order, one of them in another letter case (values are
+			// compared byte for byte): every value is a key of its own
+			par := Pick(g, hostPool)
+			sub := Pick(g, []string{"cdn.", "a.b.", "www."}) + par
+			cs := func(x string) string {
+				switch g.Intn(3) {
+				case 0:
+					return strings.ToUpper(x[:1]) + x[1:]
+				case 1:
+					return strings.ToUpper(x)
+				}
+				return x
+			}
+			vals := []string{cs(par), sub}
+			if g.Bool() {
+				vals = []string{par, cs(sub)}
+			}
+			if g.Bool() {
+				vals[0], vals[1] = vals[1], vals[0]
+			}
+			if g.Chance(1, 3) {
+				vals = append(vals, Pick(g, hostPool))
+			}
+			return Pick(g, []string{"ad", "*", "/x", "||", "^"}) + "$domain=" + strings.Join(vals, "|")
+		}
 		// domains table
 		doms := append(append([]string{}, hostPool...), wildcardDomains...)
 		return Pick(g, []string{"ad", "*", "/x", "||", "^"}) + "$domain=" + joinVals(g, doms, 1, 3, 20, "|") + Pick(g, []string{"", ",script", ",third-party"})
@@ -311,6 +358,16 @@ func init() {
 				var reqs []Req
 				for j := 0; j < nreq; j++ {
 					reqs = append(reqs, engineURLReq(g, lines))
+				}
+				// $domain values written with capitals: requests from the lower-case spelling of every value and below it
+				for _, l := range lines {
+					if k := strings.Index(l, "$domain="); k >= 0 && strings.ToLower(l[k:]) != l[k:] && len(reqs) < nreq+12 {
+						for _, v := range strings.Split(strings.SplitN(l[k+8:], ",", 2)[0], "|") {
+							v = strings.ToLower(strings.TrimPrefix(v, "~"))
+							reqs = append(reqs, Req{Kind: "url", URL: "http://example.org/ad/x", Source: "https://" + v + "/", Type: 4},
+								Req{Kind: "url", URL: "http://example.org/x", Source: "https://x." + v + "/p", Type: 2})
+						}
+					}
 				}
 				emit("engine\t" + encodeStorage(ls) + "\t" + encodeReqs(reqs))
 				// lower-cased request strings longer than 4096 bytes whose only occurrence of a rule's window is at the very
@@ -451,6 +508,13 @@ func init() {
 					ls[0].content = p[o] + "\n" + ls[0].content + p[1-o] + "\n"
 					reqs = append(reqs, Req{Kind: "host", Hostname: hs[0]}, Req{Kind: "host", Hostname: hs[1]}, Req{Kind: "host", Hostname: "x." + hs[1-o], DNSType: 1})
 				}
+				if i%8 == 7 {
+					// names that are not punycode: raw UTF-8 in rules and requests (bytes are bytes for every table; the model
+					// declines non-ASCII lower-casing, the reference resolution decides)
+					nm := Pick(g, []string{"b\u00fccher.example", "m\u00fcller-ads.example", "\u043f\u0440\u0438\u043c\u0435\u0440.\u0440\u0444", "caf\u00e9.fr", "\u00fc.de"})
+					ls[0].content += Pick(g, []string{"||", "@@||"}) + nm + "^" + Pick(g, []string{"", "$important", "$dnstype=A"}) + "\n" + Pick(g, hostsIPs) + " " + nm + "\n"
+					reqs = append(reqs, Req{Kind: "host", Hostname: nm}, Req{Kind: "host", Hostname: "www." + nm, DNSType: 1})
+				}
 				for j := 0; j < nreq; j++ {
 					r := Req{Kind: "host", Hostname: Pick(g, hostsNames)}
 					switch g.Intn(5) {
@@ -572,7 +636,12 @@ func init() {
 	// ---------------- C15 ----------------
 	cosHosts := []string{"example.org", "sub.example.org", "a.sub.example.org", "example.com", "shop.example.org", "www.shop.example.org", "other.net", "example.co.uk", "www.example.de", "notexample.org", "org", "localhost", "google.com", "www.google.co.uk", "a.google.b.notgoogle.com"}
 	cosLine := func(g *Gen) string {
+		findCollisions()
 		sel := Pick(g, []string{".ad", ".banner", "#top", ".x", "div.promo", ".wide", ".noshop"})
+		if g.Chance(1, 5) {
+			// different selectors with the same hash: an exception cancels its OWN selector only
+			sel = collidingSelectors[g.Intn(min(2, len(collidingSelectors)))][g.Intn(2)]
+		}
 		doms := []string{"example.org", "sub.example.org", "example.com", "shop.example.org", "other.net", "example.*", "google.*", "www.google.*", "example.co.uk", "org"}
 		switch g.Intn(10) {
 		case 0, 1:
